@@ -26,6 +26,7 @@ func TestCheck(t *testing.T) {
 			"against scenario reply functions (honest, hostile limits, errors, flaps, delays/re-ordering, timeouts, omitted items, readiness flaps); " +
 			"shadow in-flight counter against the global max, sound window bound against (global qps, global burst). " +
 			"(E) deterministic carry-over cases for both strategies and both directions: hold what the limiter in effect admits, switch local<->remote (readiness flip / first granted quota q with local+q > global), admit until refused, count what is in flight at once. " +
+			"(H) count strategy, max in flight: a fixed number of rounds in which one accepted server answer with a large limit races (swept delay) with the propagation of a global limit lowered to 1; judged only at quiescence (both returned): effective limit <= 1. " +
 			"(G) idle flows, count strategy, healthy server: traffic, 9 s without any attempt (longer than the counter's reset check), traffic again; with local << granted the instance must still be on the server-granted quota (a generous fraction is demanded). " +
 			"(F) bounded progress: healthy -> outage (error answers | acquire calls hanging beyond the 500 ms timeout | not ready | ClientFor failing) -> healthy, callers trying throughout; > 0 admissions demanded after a generous grace during the outage and from 5 s to >= 8 s after it. " +
 			"(A) and (B) also contain reconfiguration steps (UpstreamLimiter.Sync with changed local/global limits while the server is ok / failing / not ready); the oracle follows the current limits once they were propagated. " +
@@ -39,6 +40,7 @@ func TestCheck(t *testing.T) {
 		emptyDetailOutsideQuantifier(r)
 		countDeterministicPhase(r)
 		carryoverPhase(r)
+		racePhase(r)
 		schemaChurnPhase(r)
 		// (D) runs next to (C): both are mostly waiting
 		hbDone := make(chan struct{})
@@ -57,6 +59,7 @@ func TestCheck(t *testing.T) {
 		r.Require(r.Counter("allocate_probe_local_in_effect") > 200, "the local fallback was hardly ever in effect during allocate probes")
 		r.Require(r.Counter("count_det_steps") >= 100, "too few deterministic count-strategy steps")
 		r.Require(r.Counter("carryover_cases") >= int64(r.N(20, 200)), "too few deterministic carry-over cases completed")
+		r.Require(r.Counter("race_rounds") >= int64(r.N(14000, 60000)), "too few answer-vs-reconfigure race rounds completed")
 		r.Require(r.Counter("idle_checks") >= int64(r.N(3, 10)), "too few idle-flow checks were decided")
 		r.Require(r.Counter("rec_recovery_checks") >= int64(r.N(10, 40)) && r.Counter("rec_fallback_checks") >= int64(r.N(8, 32)), "too few outage/recovery progress checks were decided")
 		r.Require(r.Counter("allocate_reconfigurations") >= 100 && r.Counter("count_det_reconfigurations") >= 50, "too few reconfiguration steps")
